@@ -1,17 +1,39 @@
 import Fpdec.Gen.Sites
 import Fpdec.Model.Pinned
 
-/-! Site ties for C20: the flavour skeleton of each anchor file, as regenerated from /repo on this run,
-equals the skeleton the model was written against. -/
+/-! Site ties for C20 (written by tools/mksites.py): the flavour skeleton of every source file the property's operations
+execute, as regenerated from /repo on this run, equals the skeleton the model was written against. -/
 
 namespace Fpdec.Props.C20
 
-theorem tie_sites_src_binops_add_sub : Gen.sites_src_binops_add_sub = Pinned.sites_src_binops_add_sub := by decide +kernel
-theorem tie_sites_src_binops_mul : Gen.sites_src_binops_mul = Pinned.sites_src_binops_mul := by decide +kernel
-theorem tie_sites_src_round : Gen.sites_src_round = Pinned.sites_src_round := by decide +kernel
-theorem tie_sites_src_unops : Gen.sites_src_unops = Pinned.sites_src_unops := by decide +kernel
+theorem tie_sites_fpdec_core_src_lib : Gen.sites_fpdec_core_src_lib = Pinned.sites_fpdec_core_src_lib := by decide +kernel
 theorem tie_sites_fpdec_core_src_powers_of_ten : Gen.sites_fpdec_core_src_powers_of_ten = Pinned.sites_fpdec_core_src_powers_of_ten := by decide +kernel
 theorem tie_sites_fpdec_core_src_rounding : Gen.sites_fpdec_core_src_rounding = Pinned.sites_fpdec_core_src_rounding := by decide +kernel
+theorem tie_sites_fpdec_core_src_parser : Gen.sites_fpdec_core_src_parser = Pinned.sites_fpdec_core_src_parser := by decide +kernel
+theorem tie_sites_fpdec_macros_src_lib : Gen.sites_fpdec_macros_src_lib = Pinned.sites_fpdec_macros_src_lib := by decide +kernel
 theorem tie_sites_src_lib : Gen.sites_src_lib = Pinned.sites_src_lib := by decide +kernel
+theorem tie_sites_src_round : Gen.sites_src_round = Pinned.sites_src_round := by decide +kernel
+theorem tie_sites_src_unops : Gen.sites_src_unops = Pinned.sites_src_unops := by decide +kernel
+theorem tie_sites_src_quantize : Gen.sites_src_quantize = Pinned.sites_src_quantize := by decide +kernel
+theorem tie_sites_src_format : Gen.sites_src_format = Pinned.sites_src_format := by decide +kernel
+theorem tie_sites_src_from_str : Gen.sites_src_from_str = Pinned.sites_src_from_str := by decide +kernel
+theorem tie_sites_src_from_int : Gen.sites_src_from_int = Pinned.sites_src_from_int := by decide +kernel
+theorem tie_sites_src_into_int : Gen.sites_src_into_int = Pinned.sites_src_into_int := by decide +kernel
+theorem tie_sites_src_from_float : Gen.sites_src_from_float = Pinned.sites_src_from_float := by decide +kernel
+theorem tie_sites_src_into_float : Gen.sites_src_into_float = Pinned.sites_src_into_float := by decide +kernel
+theorem tie_sites_src_as_integer_ratio : Gen.sites_src_as_integer_ratio = Pinned.sites_src_as_integer_ratio := by decide +kernel
+theorem tie_sites_src_num_traits : Gen.sites_src_num_traits = Pinned.sites_src_num_traits := by decide +kernel
+theorem tie_sites_src_binops_mod : Gen.sites_src_binops_mod = Pinned.sites_src_binops_mod := by decide +kernel
+theorem tie_sites_src_binops_add_sub : Gen.sites_src_binops_add_sub = Pinned.sites_src_binops_add_sub := by decide +kernel
+theorem tie_sites_src_binops_checked_add_sub : Gen.sites_src_binops_checked_add_sub = Pinned.sites_src_binops_checked_add_sub := by decide +kernel
+theorem tie_sites_src_binops_mul : Gen.sites_src_binops_mul = Pinned.sites_src_binops_mul := by decide +kernel
+theorem tie_sites_src_binops_checked_mul : Gen.sites_src_binops_checked_mul = Pinned.sites_src_binops_checked_mul := by decide +kernel
+theorem tie_sites_src_binops_mul_rounded : Gen.sites_src_binops_mul_rounded = Pinned.sites_src_binops_mul_rounded := by decide +kernel
+theorem tie_sites_src_binops_div : Gen.sites_src_binops_div = Pinned.sites_src_binops_div := by decide +kernel
+theorem tie_sites_src_binops_checked_div : Gen.sites_src_binops_checked_div = Pinned.sites_src_binops_checked_div := by decide +kernel
+theorem tie_sites_src_binops_div_rounded : Gen.sites_src_binops_div_rounded = Pinned.sites_src_binops_div_rounded := by decide +kernel
+theorem tie_sites_src_binops_rem : Gen.sites_src_binops_rem = Pinned.sites_src_binops_rem := by decide +kernel
+theorem tie_sites_src_binops_checked_rem : Gen.sites_src_binops_checked_rem = Pinned.sites_src_binops_checked_rem := by decide +kernel
+theorem tie_sites_src_binops_cmp : Gen.sites_src_binops_cmp = Pinned.sites_src_binops_cmp := by decide +kernel
 
 end Fpdec.Props.C20
